@@ -164,6 +164,11 @@ def enc_reply(o):
     return [999, t or 0]
 
 
+def reply_seq(o):
+    rs = [m for c, l in o.get("replies", {}).items() for m in l]
+    return rs[0].get("seq", 0) if rs else 0
+
+
 def obs_term(o, shutdown=None, full=True):
     crash = "panic" in o or bool(o.get("blocked"))
     if not full:
@@ -171,7 +176,7 @@ def obs_term(o, shutdown=None, full=True):
         markers = glist([nl([m.get("src") or 0, m.get("dst") or 0, m.get("teid") or 0]) for m in o.get("markers", [])])
         sd = bool(o.get("done")) if shutdown is None else shutdown
         ncmds = len([c for c in o.get("cmds", []) if c["c"] != "clear"])
-        return (f"(Obs false {gbool(crash)} {nl(enc_reply(o))} {n(ncmds)} [] [] [] 0 [] {n(pools.get('gauge', 0))} {markers} {gbool(sd)} [])")
+        return (f"(Obs false {gbool(crash)} {nl(enc_reply(o))} {n(reply_seq(o))} {n(ncmds)} [] [] [] 0 [] {n(pools.get('gauge', 0))} {markers} {gbool(sd)} [])")
     tabs = []
     for m, code in MOD_CODE.items():
         for k, v in o.get("tables", {}).get(m, []):
@@ -188,7 +193,7 @@ def obs_term(o, shutdown=None, full=True):
     for ci, rows in pools.get("pfd_ids", {}).items():
         pf.append(f"({n(ci)}, {glist([f'({n(r[0])}, {nl(r[1])})' for r in rows])})")
     ncmds = len([c for c in o.get("cmds", []) if c["c"] != "clear"])
-    return (f"(Obs true {gbool(crash)} {nl(enc_reply(o))} {n(ncmds)} {glist(tabs)} {glist(store)} {inv} {n(pools.get('ip_free', 0))} "
+    return (f"(Obs true {gbool(crash)} {nl(enc_reply(o))} {n(reply_seq(o))} {n(ncmds)} {glist(tabs)} {glist(store)} {inv} {n(pools.get('ip_free', 0))} "
             f"{nl(pools.get('teids', []))} {n(pools.get('gauge', 0))} {markers} {gbool(sd)} {glist(pf)})")
 
 
@@ -250,7 +255,7 @@ def case_term(case, obs):
             if "sem" not in o:
                 # the event panicked or blocked before the decoder ran: model input unavailable
                 return None
-            evs.append(f"EvMsg {n(e['conn'])} {gbool(o.get('connected', True))} {msg(o['sem'])} {nl(o.get('draws', []))} {obs_term(o, full=full)}")
+            evs.append(f"EvMsg {n(e['conn'])} {gbool(o.get('connected', True))} {n(o['sem'].get('seq', 0))} {msg(o['sem'])} {nl(o.get('draws', []))} {obs_term(o, full=full)}")
         elif e["k"] == "teardown":
             evs.append(f"EvTeardown {n(e['conn'])} {obs_term(o, shutdown=True)}")
         elif e["k"] == "restart":
